@@ -31,7 +31,7 @@ BOUNDSCHECK_TIERS = ("thorough",)
 def REQUIRED(tier):
     return [f"op:{o}" for o in OPS] + ["regime:subrange_before_eof", "regime:>=3blocks", "regime:gulp<2*maxdelay", "regime:gulp>nsamps",
                                        "regime:last_block_shorter_than_maxdelay", "regime:maxdelay>nsamps/2", "tiling_checks", "gulp_independence_checks",
-                                       "spy:extract_tim", "spy:dedisperse", "regime:reader_with_history", "regime:nchans>32_not_multiple_of_32", "held_result_checks"]
+                                       "spy:extract_tim", "spy:dedisperse", "regime:reader_with_history", "regime:nchans>32_not_multiple_of_32", "held_result_checks", "regime:same_band_other_sampling_time_earlier_in_process", "regime:reductions_continuing_where_a_dedispersion_stopped"]
 
 
 def _cfg(nbits, N=97, nch=8, split=None, tsamp=1e-3):
@@ -47,6 +47,12 @@ def cases(tier, seed):
                 yield {"cfg": cfg, "dseed": int(seed), "runs": [[op, g, 0, 97, 40.0 if op == "dedisperse" else 0.0, 3] for g in range(g0, g0 + 10)]}
         # delays longer than half the range (required regime: produced here, not left to the random part)
         yield {"cfg": cfg, "dseed": int(seed), "runs": [["dedisperse", g, 0, 97, 150.0, 3] for g in (1, 5, 50, 96, 97, 200)]}
+    # the same band and DM at another sampling time, handled earlier by the same process (delay tables are per file, not per band)
+    for i, (nbits, ts2) in enumerate(((8, 5e-4), (32, 2e-3), (2, 2.5e-4))):
+        yield {"cfg": _cfg(nbits, tsamp=ts2), "first": _cfg(nbits), "dseed": int(seed) + 3 + i, "runs": [["dedisperse", g, 0, 97, 40.0, 3] for g in (7, 50, 97)]}
+    # segment-wise processing on one reader: a dedispersion made of full blocks only, then reductions that start where it stopped
+    for i, (nbits, g, j) in enumerate(((8, 40, 2), (4, 25, 3), (32, 64, 0), (8, 33, 1))):
+        yield {"cfg": _cfg(nbits, N=400), "dseed": int(seed) + 7 + i, "chain": [g, j, 25.0], "runs": []}
     rng = np.random.default_rng([seed, 606])
     nrand = 600 if tier == "quick" else 20000
     for k in range(nrand // 6):
@@ -134,11 +140,32 @@ def run_case(case, ctx):
     cfg = case["cfg"]
     X, paths = _files(ctx, cfg, case["dseed"])
     Xf = X.astype(np.float64)
+    if case.get("first"):
+        _, p1 = _files(ctx, case["first"], case["dseed"])
+        FilReader(p1 if len(p1) > 1 else p1[0]).dedisperse(40.0, gulp=50, quiet=True, description="v")
+        ctx.count("regime:same_band_other_sampling_time_earlier_in_process")
     fil = FilReader(paths if len(paths) > 1 else paths[0])
     nch = cfg["nchans"]
-    for run in case["runs"]:
+    runs = case["runs"]
+    if case.get("chain"):
+        g, j, cdm = case["chain"]
+        md = int(np.asarray(fil.header.get_dmdelays(cdm)).max())
+        n1 = g + j * (g - md)              # full blocks only: the plan ends on a rewind
+        runs = [["dedisperse", g, 0, n1, cdm, 0], ["collapse", 7, n1, 60, 0.0, 0], ["dedisperse", g, n1 + 60, n1, cdm, 0], ["read_chan", 11, 2 * n1 + 60, 50, 0.0, 1],
+                ["stats", 13, 2 * n1 + 110, 40, 0.0, 0], ["bandpass", 9, 2 * n1 + 150, 30, 0.0, 0]]
+        runs = [r for r in runs if r[2] + r[3] <= cfg["N"]]
+        ctx.count("regime:reductions_continuing_where_a_dedispersion_stopped")
+    for irun, run in enumerate(runs):
         op, gulp, start, nsamps, dm, ichan = run[0], int(run[1]), int(run[2]), int(run[3]), float(run[4]), int(run[5]) % nch
         one = {"cfg": cfg, "dseed": case["dseed"], "runs": [run]}
+        if case.get("first"):
+            one["first"] = case["first"]
+        if case.get("chain"):
+            one = {"cfg": cfg, "dseed": case["dseed"], "chain": case["chain"], "runs": []}
+            if irun:
+                # the checks of the previous step end with calls at other gulps: make the previous segment's own call the last thing the reader did
+                pr = runs[irun - 1]
+                _call(fil, pr[0], int(pr[1]), int(pr[2]), int(pr[3]), float(pr[4]), int(pr[5]) % nch)
         seg = Xf[start : start + nsamps]
         delays, maxdelay = None, 0
         if op == "dedisperse":
